@@ -450,6 +450,10 @@ pub fn execute(texts: &[(PathBuf, String)], alts: &[String], e: &C11Exec, caller
                     }
                 }
             }
+            if r == 0 || r % 16 == 5 {
+                // a client works with the result on this thread before it validates again
+                exec::use_public_api(&o);
+            }
             if r < 3 {
                 v.push(o);
             } else if canon::first_difference(&v[first_seq], &o).is_some() {
